@@ -957,6 +957,161 @@ constexpr auto script_searching(u64 seed) -> Dig
     return d;
 }
 
+// ---------------------------------------------------------------------------------------------- iterator categories
+// the same algorithms through forward-only and bidirectional iterator wrappers (other `if constexpr` / overload paths
+// than raw pointers: distance by counting, rotate by swapping, no `last - first`)
+template <typename T, typename Tag>
+struct WrapIt {
+    using iterator_category = Tag;
+    using value_type        = T;
+    using difference_type   = etl::ptrdiff_t;
+    using pointer           = T*;
+    using reference         = T&;
+    T* p{nullptr};
+    constexpr auto operator*() const -> T& { return *p; }
+    constexpr auto operator->() const -> T* { return p; }
+    constexpr auto operator++() -> WrapIt&
+    {
+        ++p;
+        return *this;
+    }
+    constexpr auto operator++(int) -> WrapIt
+    {
+        auto c = *this;
+        ++p;
+        return c;
+    }
+    constexpr auto operator--() -> WrapIt&
+        requires(etl::is_same_v<Tag, etl::bidirectional_iterator_tag>)
+    {
+        --p;
+        return *this;
+    }
+    constexpr auto operator--(int) -> WrapIt
+        requires(etl::is_same_v<Tag, etl::bidirectional_iterator_tag>)
+    {
+        auto c = *this;
+        --p;
+        return c;
+    }
+    friend constexpr auto operator==(WrapIt a, WrapIt b) -> bool { return a.p == b.p; }
+    friend constexpr auto operator!=(WrapIt a, WrapIt b) -> bool { return a.p != b.p; }
+};
+template <typename Tag>
+constexpr auto iter_category_script(u64 seed) -> Dig
+{
+    using It  = WrapIt<int, Tag>;
+    using CIt = WrapIt<int const, Tag>;
+    Dig d{};
+    Rng r{seed};
+    for (int k = 0; k < 6; ++k) {
+        auto const src = rand_arr(r, NA, 0, 5);
+        auto a         = src;
+        auto const odd = [](int x) { return (x & 1) != 0; };
+        int const m    = r.below(a.n + 1);
+        int const x    = r.range(0, 5);
+        auto B         = [&a] { return It{a.v}; };
+        auto E         = [&a] { return It{a.v + a.n}; };
+        auto M         = [&a, m] { return It{a.v + m}; };
+        CIt const cb{src.v};
+        CIt const ce{src.v + src.n};
+        d.add(static_cast<i64>(etl::distance(B(), E())));
+        d.add(static_cast<i64>(etl::distance(B(), M())));
+        auto adv = B();
+        etl::advance(adv, m);
+        d.add(static_cast<i64>(adv.p - a.v));
+        d.add(static_cast<i64>(etl::next(B(), m).p - a.v));
+        d.add(static_cast<i64>(etl::find(cb, ce, x).p - src.v));
+        d.add(static_cast<i64>(etl::find_if(cb, ce, odd).p - src.v));
+        d.add(static_cast<i64>(etl::count(cb, ce, x)));
+        d.add(static_cast<i64>(etl::adjacent_find(cb, ce).p - src.v));
+        d.add(static_cast<i64>(etl::min_element(cb, ce).p - src.v));
+        d.add(static_cast<i64>(etl::max_element(cb, ce).p - src.v));
+        d.add(etl::is_sorted(cb, ce));
+        d.add(etl::equal(cb, ce, CIt{a.v}, CIt{a.v + a.n}));
+        d.add(etl::lexicographical_compare(cb, ce, CIt{a.v + m}, CIt{a.v + a.n}));
+        d.add(static_cast<i64>(etl::search(cb, ce, CIt{a.v + m}, CIt{a.v + a.n}).p - src.v));
+        d.add(etl::accumulate(cb, ce, 0));
+        {
+            auto it = etl::rotate(B(), M(), E());
+            d.add(static_cast<i64>(it.p - a.v));
+            d.all(a);
+        }
+        {
+            a       = src;
+            auto it = etl::remove(B(), E(), x);
+            d.range(a.v, it.p);
+            a  = src;
+            it = etl::remove_if(B(), E(), odd);
+            d.range(a.v, it.p);
+            a  = src;
+            it = etl::unique(B(), E());
+            d.range(a.v, it.p);
+            a  = src;
+            it = etl::partition(B(), E(), odd);
+            d.add(static_cast<i64>(it.p - a.v));
+            d.add(etl::is_partitioned(B(), E(), odd));
+            d.add(static_cast<i64>(etl::partition_point(B(), E(), odd).p - a.v));
+        }
+        {
+            a = src;
+            etl::replace(B(), E(), 1, 9);
+            etl::fill(B(), M(), 7);
+            d.all(a);
+            IntArr o{};
+            o.n = src.n;
+            etl::copy(cb, ce, It{o.v});
+            d.all(o);
+            etl::rotate_copy(cb, CIt{src.v + m}, ce, It{o.v});
+            d.all(o);
+            auto e = etl::copy_if(cb, ce, It{o.v}, odd);
+            d.range(o.v, e.p);
+            e = etl::unique_copy(cb, ce, It{o.v});
+            d.range(o.v, e.p);
+            etl::transform(cb, ce, It{o.v}, [](int v) { return v + 1; });
+            d.all(o);
+            etl::swap_ranges(B(), M(), It{o.v});
+            d.all(a);
+            a       = src;
+            auto sl = etl::shift_left(B(), E(), m);
+            d.range(a.v, sl.p);
+        }
+        {
+            auto s1 = sorted_arr(r, 7, 0, 6);
+            CIt const sb{s1.v};
+            CIt const se{s1.v + s1.n};
+            d.add(static_cast<i64>(etl::lower_bound(sb, se, x).p - s1.v));
+            d.add(static_cast<i64>(etl::upper_bound(sb, se, x).p - s1.v));
+            d.add(etl::binary_search(sb, se, x));
+            auto const er = etl::equal_range(sb, se, x);
+            d.add(static_cast<i64>(er.first.p - s1.v));
+            d.add(static_cast<i64>(er.second.p - s1.v));
+        }
+        if constexpr (etl::is_same_v<Tag, etl::bidirectional_iterator_tag>) {
+            a = src;
+            etl::reverse(B(), E());
+            d.all(a);
+            IntArr o{};
+            o.n = src.n;
+            etl::reverse_copy(cb, ce, It{o.v});
+            d.all(o);
+            etl::copy_backward(cb, CIt{src.v + m}, It{o.v + o.n});
+            d.all(o);
+            d.add(static_cast<i64>(etl::prev(E(), m).p - a.v));
+            // (etl::stable_partition and etl::insertion_sort use `last - first` / `it - 1`: random access only)
+            a = src;
+            etl::gnome_sort(B(), E());
+            d.all(a);
+            a       = src;
+            auto sr = etl::shift_right(B(), E(), m);
+            d.range(sr.p, a.v + a.n);
+        }
+    }
+    return d;
+}
+constexpr auto script_iter_forward(u64 seed) -> Dig { return iter_category_script<etl::forward_iterator_tag>(seed); }
+constexpr auto script_iter_bidi(u64 seed) -> Dig { return iter_category_script<etl::bidirectional_iterator_tag>(seed); }
+
 // ---------------------------------------------------------------------------------------------- numeric
 constexpr auto script_numeric(u64 seed) -> Dig
 {
@@ -2374,6 +2529,8 @@ C13_SCRIPT(string_view, script_string_view)
 C13_SCRIPT(sorts, script_sorts)
 C13_SCRIPT(mutating, script_mutating)
 C13_SCRIPT(searching, script_searching)
+C13_SCRIPT(iter_forward, script_iter_forward)
+C13_SCRIPT(iter_bidi, script_iter_bidi)
 C13_SCRIPT(numeric, script_numeric)
 C13_SCRIPT(bit, script_bit)
 #if !defined(__clang__)
@@ -2418,6 +2575,8 @@ Script const SCRIPTS[] = {
     C13_ENTRY(sorts),
     C13_ENTRY(mutating),
     C13_ENTRY(searching),
+    C13_ENTRY(iter_forward),
+    C13_ENTRY(iter_bidi),
     C13_ENTRY(numeric),
     C13_ENTRY(bit),
 #if !defined(__clang__)
